@@ -359,6 +359,9 @@ func adversarialCBE(t *tape.Tape) ([]byte, string) {
 func runC08(e *Env) Outcome {
 	calibrated.Do(func() { calibrate(e) })
 	t := e.T
+	if t.Chance("scaling-mode", 1, 40) {
+		return runC08Scaling(e, t)
+	}
 	f := gen.Format(t.Intn("format", 2))
 	cfgd := CfgDesc{EnforceRules: !t.Chance("cfg-norules", 1, 3)}
 	cfgd.MaxArray = []uint64{64, 1024, 65536, 1 << 20, 0}[t.Intn("cfg-maxarray", 5)]
